@@ -476,6 +476,31 @@ class Interp:
                 f = c.find(meth) if c is not None else None
                 if f is not None and getattr(f, 'node', None) is not None:
                     return f.node
+            # an abstract record not in the table: every class of the package that defines a method of this name -- if they all agree
+            # on the parameter list, that is the signature the call is read with
+            idx = getattr(self.repo, '_method_index', None)
+            if idx is None:
+                import os
+                idx = {}
+                root = os.path.join(self.repo.root, 'oqupy')
+                for dp, _, files in os.walk(root):
+                    for fn_ in files:
+                        if not fn_.endswith('.py'):
+                            continue
+                        try:
+                            tree = ast.parse(open(os.path.join(dp, fn_)).read())
+                        except Exception:       # noqa
+                            continue
+                        for c_ in tree.body:
+                            if isinstance(c_, ast.ClassDef):
+                                for m_ in c_.body:
+                                    if isinstance(m_, ast.FunctionDef):
+                                        idx.setdefault(m_.name, []).append(m_)
+                self.repo._method_index = idx
+            cands = idx.get(meth, [])
+            sigs = {tuple(a.arg for a in m_.args.posonlyargs + m_.args.args) for m_ in cands}
+            if len(sigs) == 1:
+                return cands[0]
         except Exception:       # noqa
             return None
         return None
